@@ -21,6 +21,9 @@ CHECKS["C04"] = ("metamorphic testing: minimal vs full vs redundant parenthesisa
 CHECKS["C05"] = ("differential testing of generated try/catch/finally programs against the reference interpreter + real-subprocess exit-status checks",
          "Generated exception hierarchies and nested try/catch/finally inside loops, switches and functions with every exit path; marker traces compared with the reference interpreter (first matching catch, same object, finally exactly once, return/throw in finally overrides); a seeded subset plus truncated variants run through the CLI for exit status, diagnostic and flush.",
          "PHP semantics for try/catch/finally as the reference; base control-flow constructs inherit the C02 exclusions; break/continue out of finally are not generated.")
+CHECKS["C06"] = ("exhaustive shape x aliasing-route x mutation x side matrix with in-run before/after snapshots against a Go model of each mutation; rapid random shapes",
+         "Seven shapes x eleven routes (assign, by-value parameter, return, static-local return, property store/read, outer-array store/read, clone; positive controls & reference and object handle) x thirteen mutations x mutated side, complete in both tiers, plus random shapes: the untouched name keeps its deep snapshot, the mutated name shows exactly the model's effect, explicit sharing must write through.",
+         "Snapshots compared modulo integer keys; positional mutations on string-keyed literals (object-like values in origami) are not asserted.")
 NOT_YET = {
 }
 
